@@ -944,6 +944,9 @@ def _damage_obligation(rep, prog, name, mk, dl, prop, native=None):
             import re as _re
             site = ':' + _re.sub(r'<impl at [^>]*>', '', b.get('where') or '').split(' ')[0].replace('::::', '::')
         key = 'damage:%s:%s:%s%s' % (b['kind'], b.get('op'), (b.get('target') or b.get('apath') or '') + ('/' + b['how'] if b.get('how') else ''), site)
+        if b.get('site'):
+            # a recorded situation is identified by what fails, not by how the hunk was damaged
+            key = 'damage:%s:%s:%s:%s' % (b['kind'], b.get('op'), b.get('target'), b['site'])
         if key in seen:
             continue
         seen.add(key)
@@ -1009,6 +1012,11 @@ def _history_native(variant):
                     {'path': '/', 'kind': 'Dir', 'mode': 0o755, 'mtime': [1, 0], 'hunk': 0},
                     {'path': '/a', 'kind': 'File', 'size': 8, 'class': 4, 'mode': 0o644, 'mtime': [5, 0], 'hunk': 0},
                     {'path': '/b', 'kind': 'File', 'size': 9, 'class': 2, 'mode': 0o600, 'mtime': [3, 0], 'hunk': 1}]}]
+        elif variant == 'subdir':
+            bands = [{'band': 0, 'closed': True, 'entries': [
+                {'path': '/', 'kind': 'Dir', 'mode': 0o755, 'mtime': [1, 0], 'hunk': 0},
+                {'path': '/d', 'kind': 'Dir', 'mode': 0o750, 'mtime': [2, 0], 'hunk': 0},
+                {'path': '/d/f', 'kind': 'File', 'size': 7, 'class': 1, 'mode': 0o644, 'mtime': [3, 0], 'hunk': 1}]}]
         elif variant == 'single':
             bands = [{'band': 0, 'closed': bool(newest_closed), 'entries': [
                 {'path': '/', 'kind': 'Dir', 'mode': 0o755, 'mtime': [1, 0], 'hunk': 0},
@@ -1028,7 +1036,7 @@ def _history_native(variant):
         path = b.get('path') or ''
         if path.startswith('d/'):
             # which block: by hash id order of creation (A, B | A, Z, C)
-            order = ['/a', '/b'] if variant == 'single' else ['/m#0', '/m#1', '/a'] if variant == 'multi' else \
+            order = ['/d/f'] if variant == 'subdir' else ['/a', '/b'] if variant == 'single' else ['/m#0', '/m#1', '/a'] if variant == 'multi' else \
                 ['/a', '/b', '/c', '/a@1'] if variant == 'deep' else ['/a', '/z', '/c']
             import re as _re
             m = _re.match(r'd/\w+/[0-9a-f]{3}([0-9a-f]{125})$', path)
@@ -1112,9 +1120,11 @@ def check_C10(rep, prog, tier):
     for ap in ['', 'a', '/..', '/a//b']:
         _damage_obligation(rep, prog, 'decoded apath %r: restore does not panic or escape' % ap, D.make_decoded(prog, 'restore', ap), dl, 'C10', _decoded_native)
     _damage_obligation(rep, prog, 'unparseable band_format_version: listing does not panic', D.make_decoded(prog, 'list', 'valid', 'x.y'), dl, 'C10', _decoded_native)
-    for variant in ['single', 'two', 'multi'] + (['deep'] if tier != 'quick' else []):
+    for variant in ['single', 'two', 'multi', 'subdir'] + (['deep'] if tier != 'quick' else []):
         for op in ['restore', 'backup']:
-            _damage_obligation(rep, prog, 'one damaged file (%s history): %s does not panic, intact files are exact, lost files are reported' % ({'single': 'single-version', 'two': 'two-version', 'multi': 'two-block-file', 'deep': 'three-hunk band under an unfinished band'}[variant], op),
+            if variant == 'subdir' and op == 'backup':
+                continue
+            _damage_obligation(rep, prog, 'one damaged file (%s history): %s does not panic, intact files are exact, lost files are reported' % ({'single': 'single-version', 'two': 'two-version', 'multi': 'two-block-file', 'deep': 'three-hunk band under an unfinished band', 'subdir': 'directory and its file in different hunks'}[variant], op),
                                D.make_contained(prog, op, variant), dl, 'C10', _history_native(variant))
 
 
